@@ -153,7 +153,10 @@ def begin_event(step, evs_of_step):
     elif op == "SetValue":
         kind, budget = "multi", {"i/v": 16, "i/_exists": 1}       # one entry per bit row
     elif op in ("SetKeyed", "ImportKeyed"):
-        key, budget = True, {"k/kf": 1, "k/_exists": 1}
+        # keys that exist already need no translate-log entry: whether one is written is
+        # read off the trace (its protocol is then validated)
+        key = any(e.get("act") == "TranslateWrite" for e in evs_of_step)
+        budget = {"k/kf": 1, "k/_exists": 1}
     elif op == "ImportRoaring":
         kind, budget = "roaring", {"i/f": 1}
     elif op == "Import":
